@@ -654,7 +654,7 @@ func TestVerifC16Builder(t *testing.T) {
 // TestVerifC16RoundTrip: the same oracle through TracingRoundTripper and
 // TracingHandler with racing transport error / body error / cancel.
 func TestVerifC16RoundTrip(t *testing.T) {
-	rep := verifkit.Begin("C16", "roundtrip", "traced client round trips over a scripted transport (ok / transport error / body error / cancel racing body end, body read delays 0-200 us, body closed or not, or closed by a second goroutine while the first is still reading) and traced server handlers (write + early return, panic, client cancel); oracle: exactly one Complete per named operation, terminal event last, each body ends at most once; distinct = (side, mode, delivered event kinds)")
+	rep := verifkit.Begin("C16", "roundtrip", "traced client round trips over a scripted transport (ok / transport error / body error / cancel racing body end / body-less response (http.NoBody), body read delays 0-200 us, body closed or not, or closed by a second goroutine while the first is still reading) and traced server handlers (write + early return, panic, client cancel); oracle: exactly one Complete per named operation, terminal event last, each body ends at most once; distinct = (side, mode, delivered event kinds)")
 	defer rep.Write()
 	n := verifkit.Scale(3000, 100000)
 	coll := &vfCountingCollector{}
@@ -663,7 +663,7 @@ func TestVerifC16RoundTrip(t *testing.T) {
 	sem := make(chan struct{}, 48)
 	for i := 0; i < n; i++ {
 		rng := verifkit.Stream("c16rt", i)
-		mode := rng.Intn(6)
+		mode := rng.Intn(7)
 		modes[i] = mode
 		bodyDelay := time.Duration(rng.Intn(200)) * time.Microsecond
 		cancelDelay := time.Duration(rng.Intn(300)) * time.Microsecond
@@ -676,7 +676,7 @@ func TestVerifC16RoundTrip(t *testing.T) {
 		go func() {
 			defer wg.Done()
 			defer func() { <-sem }()
-			if mode <= 3 {
+			if mode <= 3 || mode == 6 {
 				rt := TracingRoundTripper(roundTripperFunc(func(req *http.Request) (*http.Response, error) {
 					if req.Body != nil && racyClose {
 						// like a real transport: the body is read by one goroutine and closed by another
@@ -691,6 +691,10 @@ func TestVerifC16RoundTrip(t *testing.T) {
 					}
 					if mode == 1 {
 						return nil, errors.New("dial failed")
+					}
+					if mode == 6 {
+						// a response without a body, as net/http hands it out (204, 304, HEAD, Content-Length: 0)
+						return &http.Response{StatusCode: verifkit.Pick(rng, []int{204, 304, 200}), Proto: "HTTP/1.1", ProtoMajor: 1, ProtoMinor: 1, Header: http.Header{"Content-Type": {"application/connect+proto"}}, Body: http.NoBody, ContentLength: 0}, nil
 					}
 					var berr error
 					if mode == 2 {
@@ -750,7 +754,7 @@ func TestVerifC16RoundTrip(t *testing.T) {
 	for i := 0; i < n; i++ {
 		rep.Eval(1)
 		ts := coll.traces[fmt.Sprintf("r%d", i)]
-		w := map[string]any{"operation": i, "mode": []string{"client ok", "client transport error", "client body error", "client cancel race", "server ok", "server panic"}[modes[i]]}
+		w := map[string]any{"operation": i, "mode": []string{"client ok", "client transport error", "client body error", "client cancel race", "server ok", "server panic", "client body-less response"}[modes[i]]}
 		if len(ts) != 1 {
 			rep.Violation(fmt.Sprintf("builder/roundtrip-complete-count/%d", len(ts)), fmt.Sprintf("Collector.Complete called %d times (%s)", len(ts), w["mode"]), w)
 			continue
